@@ -92,7 +92,15 @@ def step (s : St) (j : Json) : R (St × Json) := do
   match op with
   | "reset" => return ({}, Json.mkObj [])
   | "new_doc" =>
-    let (h, c) := s.h.newDoc
+    -- optional "ns": [[prefix, uri], …] = ProvDocument(namespaces=…), registered in that order by the constructor
+    let nss : List Ns ← match j.getObjVal? "ns" with
+      | .ok a => (← a.getArr?).toList.mapM (fun e => do
+          let pr ← e.getArr?
+          match pr.toList with
+          | [p, u] => return (⟨← p.getStr?, ← u.getStr?⟩ : Ns)
+          | _ => throw "new_doc: ns entries are [prefix, uri]")
+      | .error _ => pure []
+    let (h, c) := s.h.newDoc nss
     return (← { s with h := h }.bindCont j c, Json.mkObj [])
   | "new_from" =>
     let rs ← (← (← j.getObjVal? "recs").getArr?).toList.mapM (fun e => do
